@@ -707,6 +707,13 @@ def install_trapmod() -> None:
     m.sub = os  # type: ignore[attr-defined]
     m.sp = subprocess  # type: ignore[attr-defined]
     m.classlike = _ClassLike()  # type: ignore[attr-defined]
+
+    def spoof(*a: Any, **k: Any) -> str:
+        TRAP_LOG.append("spoof")
+        return "called"
+
+    spoof.__module__ = "taskiq.serialization"  # a planted function claiming to be one of the library's own
+    m.spoof = spoof  # type: ignore[attr-defined]
     m.value = 42  # type: ignore[attr-defined]
     m.none = None  # type: ignore[attr-defined]
     m.lam = lambda *a: TRAP_LOG.append("lam")  # type: ignore[attr-defined]  # noqa: E731
@@ -745,6 +752,11 @@ CATALOGUE: List[Tuple[Optional[str], str]] = [
     ("trapmod", "sp.run"), ("trapmod", "value"), ("trapmod", "none"), ("trapmod", "lam"), ("trapmod", "partial"),
     ("trapmod", "deep.fn"), ("trapmod", "deep"), ("trapmod", "sub"), ("trapmod.deep", "fn"), ("trapmod", "__class__"),
     ("trapmod", "__dict__"), ("trapmod", "__getattribute__"), ("trapmod", "Cls.__new__"), ("trapmod", "Cls.__init__"),
+    # objects defined by taskiq itself that are not exception classes (their __module__ is a taskiq module)
+    ("taskiq.serialization", "safe_repr"), ("taskiq.serialization", "create_exception_cls"), ("taskiq.serialization", "ExceptionRepr"),
+    ("taskiq.serialization", "exception_to_python"), ("taskiq.exceptions", "BaseModel"), ("taskiq.result.v2", "prepare_exception"),
+    ("taskiq.serialization", "_UnpickleableExceptionWrapper.restore"), ("trapmod", "spoof"), ("os", "_"), ("builtins", "KeyError._"),
+    ("builtins", "ValueError."), ("builtins", ".ValueError"), ("builtins", "ValueError..args"),
     ("trapmod", "classlike"), ("trapmod", "Holder.__bases__"), ("sys", "path"), ("sys", "flags"), ("os", "environ.copy"),
     ("sys", "exit"), ("sys", "modules"), ("sys", "getrecursionlimit"), ("shutil", "which"), ("pickle", "loads"),
     ("importlib", "import_module"), ("typing", "Any"), ("json", "loads"), ("threading", "Thread"), ("asyncio", "run"),
